@@ -42,6 +42,9 @@ SKS = [
     dict(pre=[], effs=[5], effcond=0, second_action=[12], pre2=[5], n_bounds="both", goal=[0]),  # the same on a numeric fluent
     dict(pre=[], effs=[12], second_action=[10], pre2=[], inv=[2], goal=[2]),      # QUANTIFIED invariant: a writes b, a2 writes p(x), nothing else links them
     dict(pre=[], effs=[0], second_action=[15], pre2=[], inv=[2], goal=[1]),
+    # three invariants sharing fluents pairwise: a writes b, a2 writes p(x); only the LAST invariant links b with p(o2)
+    dict(pre=[], effs=[12], second_action=[10], pre2=[], inv=[1, 3, 4], goal=[2]),
+    dict(pre=[], effs=[12], second_action=[10], pre2=[], inv=[3, 1, 4], goal=[2]),
 ]
 
 
